@@ -83,7 +83,35 @@ func c09Arith(r *vlib.Run, c c09Case) {
 	exact := hcThreshold(hcBig(uint64(c.Items)), hcBig(c.Octets), hcBig(c.Offset))
 	r.Eval()
 	if exact.BitLen() > 64 {
-		r.Class("arith fn=" + c.Fn + " unrepresentable(excluded)")
+		// The exact value does not fit 64 bits; the statement does not say which 64-bit value stands
+		// for it, but the formula is monotone in the offset: an offset larger by (exact - (2^64-1))
+		// gives the representable threshold 2^64-1, so "computed without overflow" rules out any
+		// result below 2^64-1 (a wrapped result would make an unaffordable account look cheap).
+		var got uint64
+		problem := ""
+		if c.Fn == "calc" {
+			p, msg, _ := vlib.Guard(func() {
+				got = uint64(service_account.CalcThresholdBalance(types.U32(c.Items), types.U64(c.Octets), types.U64(c.Offset)))
+			})
+			if p {
+				problem = "go panic: " + msg
+			}
+		} else {
+			got, problem = c09InfoThreshold(c.Items, c.Octets, c.Offset)
+		}
+		r.Transition()
+		site := "service_account.CalcThresholdBalance"
+		if c.Fn == "info" {
+			site = "PVM.info"
+		}
+		okv := problem == "" && got == ^uint64(0)
+		r.Class(fmt.Sprintf("arith fn=%s unrepresentable ok=%v", c.Fn, okv))
+		if problem != "" {
+			r.Violation(site, "failed", "exact>=2^64", fmt.Sprintf("items=%d octets=%d offset=%d: %s", c.Items, c.Octets, c.Offset, problem), c)
+		} else if !okv {
+			r.Violation(site, "wrapped-value", "exact>=2^64", fmt.Sprintf("items=%d octets=%d offset=%d: threshold %d although the exact value %s exceeds 2^64-1 (the offset %s larger already gives 2^64-1)",
+				c.Items, c.Octets, c.Offset, got, exact.String(), (&big.Int{}).Sub(exact, hcBig(^uint64(0))).String()), c)
+		}
 		return
 	}
 	var got uint64
@@ -144,7 +172,16 @@ func c09ArithCases(r *vlib.Run) []c09Case {
 	var out []c09Case
 	for _, fn := range []string{"calc", "info"} {
 		for _, i := range items {
-			for _, o := range octs {
+			// wrap points of this item count: octets with B_S + B_I*i + o = 2^64 - 2 … 2^64 + 2
+			own := append([]uint64(nil), octs...)
+			base := (&big.Int{}).Sub(two64, hcThreshold(hcBig(uint64(i)), big.NewInt(0), big.NewInt(0)))
+			for d := int64(-2); d <= 2; d++ {
+				y := (&big.Int{}).Add(base, big.NewInt(d))
+				if y.Sign() >= 0 && y.Cmp(two64) < 0 {
+					own = append(own, y.Uint64())
+				}
+			}
+			for _, o := range own {
 				raw := hcThreshold(hcBig(uint64(i)), hcBig(o), big.NewInt(0))
 				offs := []uint64{0, ^uint64(0)}
 				for d := int64(-1); d <= 1; d++ {
@@ -156,9 +193,9 @@ func c09ArithCases(r *vlib.Run) []c09Case {
 				// offsets that bring an over-2^64 raw value back into range
 				if raw.Cmp(two64) >= 0 {
 					x := (&big.Int{}).Sub(raw, two64)
-					for d := int64(0); d <= 2; d++ {
+					for d := int64(-2); d <= 2; d++ { // gratis offset = wrapped sum -2 … +2
 						y := (&big.Int{}).Add(x, big.NewInt(d))
-						if y.Cmp(two64) < 0 {
+						if y.Sign() >= 0 && y.Cmp(two64) < 0 {
 							offs = append(offs, y.Uint64())
 						}
 					}
